@@ -324,7 +324,14 @@ impl<'a> MeshNearCheck<'a> {
                 false
             };
 
-            self.store_and_return(vertex_index, is_ok)
+            // With an angle tolerance the result depends on the normal of the face being tested, which
+            // differs between the faces sharing this vertex, so it can only be memoised per vertex when
+            // no angle tolerance is set
+            if self.angle_tol.is_none() {
+                self.store_and_return(vertex_index, is_ok)
+            } else {
+                is_ok
+            }
         }
     }
 }
